@@ -283,7 +283,9 @@ func discharge(o *Obligation, dir string, timeout time.Duration, idx int) {
 		}
 		// sat on a sliced problem is a genuine countermodel of the sliced hypotheses; since slicing only drops
 		// hypotheses unrelated to the goal, re-check unsliced to be safe
-		full := o.smtFull
+		renderMu.Lock()
+		full := smtFile(o, false)
+		renderMu.Unlock()
 		if full != txt {
 			f2 := fname + ".full.smt2"
 			os.WriteFile(f2, []byte(full), 0o644)
@@ -358,6 +360,8 @@ func modelOf(out string) string {
 	return m
 }
 
+var renderMu sync.Mutex
+
 func dischargeAll(obls []*Obligation, dir string, timeout time.Duration, par int) {
 	// render every SMT text sequentially: Term.String caches and terms are shared between obligations
 	for _, o := range obls {
@@ -365,7 +369,6 @@ func dischargeAll(obls []*Obligation, dir string, timeout time.Duration, par int
 			continue
 		}
 		o.smtSliced = smtFile(o, true)
-		o.smtFull = smtFile(o, false)
 		if o.Kind != "cover" && !hasQuant(o.Goal) {
 			o.smtQF = smtFileQ(o, true, true)
 		}
